@@ -229,3 +229,15 @@ SPECS["C15"] = dict(
              witnesses=["dropped"]),
     ],
 )
+
+SPECS["C20"] = dict(
+    level="model_checking",
+    technique="bounded symbolic execution of go/ssa: exhaustive solver-pruned exploration of request shapes, object existence, backend paging behaviours, fault positions and goroutine completion orders",
+    outside="more than 3 (quick) / 4 (thorough) UUIDs over local + 2 remotes + 1 unknown cluster; the other generated list types share the template, only CollectionList is executed; backends that mix requested and unrequested objects in one page",
+    assumptions=["stub backends hold an arbitrary subset of the objects and answer each call with an arbitrary non-empty sub-page (any order) of the requested objects they hold; an empty page only when nothing requested remains",
+                 "an error or a no-progress answer (a page of unrequested objects) is injected at an arbitrary backend call"],
+    runs=[
+        dict(name="list", pkg="lib/controller/federation", pam=True, harness=["federation/c20_list.go", "federation/c19_provider.go"], entry="GosymH_C20_list", sched="msgorder", replay="engine",
+             params=dict(quick=dict(uuids=2), thorough=dict(uuids=3)), witnesses=["merged", "rejected", "unknown-cluster", "injected-failure", "not-federated"]),
+    ],
+)
